@@ -1,4 +1,4 @@
-#!/usr/bin/env python3
+#!/usr/bin/env python3-vt
 import json, sys, glob, jsonschema
 sch = json.load(open('/root/.vp/EVIDENCE.schema.json'))
 bad = 0
